@@ -63,6 +63,22 @@ def int_to_chars(I, v):
     return list(out)
 
 
+def int_to_hex(I, v):
+    if isinstance(v, int):
+        return [ord(c) for c in '%x' % v]
+    w = W(I)
+    k = 1
+    while k < 16:
+        if w.branch(v < 16 ** k):
+            break
+        k += 1
+    ds = [w.fresh_int('hx', 0, 15) for _ in range(k)]
+    if k > 1:
+        w.assume(ds[0] >= 1)
+    w.assume(v == z3.Sum([ds[i] * 16 ** (k - 1 - i) for i in range(k)]) if k > 1 else v == ds[0])
+    return [z3.If(d < 10, d + 48, d + 87) for d in ds]
+
+
 def parse_int(I, cs, ty):
     """<ty as FromStr>::from_str -> Result<int, ParseIntError>"""
     w = W(I)
@@ -276,6 +292,11 @@ def _arg_other(I, ci, v):
     return Opaque('FmtArg', (ci.method[4:], v))
 
 
+@model('Argument::from_usize')
+def _arg_usize(I, ci, v):
+    return Opaque('FmtArg', ('usize', v))
+
+
 @model('Arguments::new')
 def _arguments_new(I, ci, template, args):
     t = peel(template)
@@ -343,8 +364,12 @@ def render_arguments(I, a):
             if b & 8:
                 nxt = int.from_bytes(tmpl[i:i + 2], 'little')
                 i += 2
-            if b & 0x30:
-                raise Unsupported('indirect width/precision in format template')
+            if b & 0x20:
+                raise Unsupported('indirect precision in format template')
+            if b & 0x10:
+                wa = args[width]
+                wv = peel(wa.state[1]) if isinstance(wa, Opaque) else peel(wa)
+                width = W(I).concretize_int(wv, what='format width')
             arg = args[nxt]
             nxt += 1
             kind, val = arg.state
@@ -352,6 +377,8 @@ def render_arguments(I, a):
                 cs = render_display(I, val)
             elif kind == 'debug':
                 cs = render_display(I, val, debug=True)
+            elif kind == 'lower_hex':
+                cs = int_to_hex(I, peel(val))
             else:
                 raise Unsupported('format trait ' + kind)
             if prec is not None:
